@@ -159,6 +159,12 @@ fn random_tree(r: &mut Rng, depth: usize) -> Vec<(String, Node)> {
 }
 
 fn check_tree(db: &LayoutDb, tree: &[(String, Node)], idx: usize, seed: u64, sink: &Sink, nontrivial: bool) {
+	check_tree_opt(db, tree, idx, seed, sink, nontrivial, false)
+}
+
+/// `may_reject`: the tree is nested beyond what the formats are required to hold: the reader may refuse it, but
+/// if it accepts it, everything the property says about an accepted tree must hold.
+fn check_tree_opt(db: &LayoutDb, tree: &[(String, Node)], idx: usize, seed: u64, sink: &Sink, nontrivial: bool, may_reject: bool) {
 	let reg = ["C", "A", "B"][idx % 3];
 	let vs = db.versions_of_regime(reg);
 	let (a, b) = vs[(idx * 13 + seed as usize) % vs.len()];
@@ -181,6 +187,7 @@ fn check_tree(db: &LayoutDb, tree: &[(String, Node)], idx: usize, seed: u64, sin
 	let report = |check: &str, kind: &str, d: String| sink.report(&viol(check, &cls, kind, d), &|| json!({"ver": ver, "bytes_hex": crate::util::hex(&built.bytes)}));
 	let g = match real::read_slp(&built.bytes, false, false) {
 		Outcome::Ok(g) => g,
+		Outcome::Err(_) if may_reject => return,
 		o2 => return report("metadata_read", o2.kind(), o2.detail()),
 	};
 	match &g.metadata {
@@ -277,6 +284,14 @@ pub fn cmd_ubjson(a: &Args) {
 			t = vec![(format!("n{}", d % 10), Node::M(t))];
 		}
 		check_tree(&db, &t, depth, seed, &sink, true);
+	}
+	// beyond that the reader may refuse; what it accepts must still survive the trip through .slpp
+	for depth in [127usize, 128, 129, 200, 1000] {
+		let mut t: Vec<(String, Node)> = vec![("leaf".to_string(), Node::I(depth as i32))];
+		for d in 0..depth {
+			t = vec![(format!("n{}", d % 10), Node::M(t))];
+		}
+		check_tree_opt(&db, &t, depth, seed, &sink, true, true);
 	}
 	// absence of metadata
 	for (i, reg) in ["A", "B", "C"].iter().enumerate() {
